@@ -532,6 +532,10 @@ pub fn cases(tier: Tier) -> Vec<Case> {
             }
         }
     }
+    // the tangent-convergence locator on the envelope family (known medial axis)
+    for section in 0..na {
+        out.push(Case { family: "A".into(), section, le: "converge".into(), te: "intersect".into(), orient: "dir".into(), detect_face: false });
+    }
     // trailing-edge locators other than the intersection, and the sharp-cornered variant
     for section in 0..tier.pick(2, 4) {
         for te in ["fitradius", "constradius"] {
